@@ -18,7 +18,7 @@ Extraction "../ocaml/gen/szm.ml"
   read_conf init_params state_fields to_conf
   get_metadata encode_params force all_written
   recon_array ity_of
-  frun1 drun1 frun2 frun3
+  frun1 drun1 frun2 frun3 frun_ctxok
   hist_exes
   ts_run_f ts_run_d ts_out_f ts_out_d resolve
   run_threads
